@@ -17,6 +17,7 @@ FAMILIES = {
     "registry": "harness.check_registry",
     "save": "harness.check_save",
     "formats": "harness.check_formats",
+    "loader": "harness.check_loader",
 }
 # property -> families whose judges print verdicts for it
 PROPS = {
@@ -29,6 +30,7 @@ PROPS = {
     "C08": ["validation"],
     "C19": ["registry"],
     "C07": ["save"],
+    "C18": ["loader"],
     "C01": ["formats"], "C02": ["formats"],
 }
 EXPLAIN = {}
